@@ -158,6 +158,570 @@ theorem inv_runC (env : Env K P O X R A) {L : Nat} (r : Nat) (hL : 1 ≤ L) (k :
     Inv L r (runC env L r k as) :=
   inv_foldl env hL _ (inv_reset env r hL k) as
 
+/-! ### replay of a fresh episode -/
+
+/-- the part of an inner state that a Markov environment determines -/
+def CoreEq (s s' : St P O X R) : Prop :=
+  s.ps = s'.ps ∧ s.obs = s'.obs ∧ s.reward = s'.reward ∧ s.done = s'.done ∧ s.metrics = s'.metrics
+
+theorem iter_core (env : Env K P O X R A) (hM : Markov env) (a : A) (i : Nat)
+    (s s' : St P O X R) (h1 : s.ps = s'.ps) (h2 : s.obs = s'.obs) :
+    CoreEq (iter env a (i + 1) s) (iter env a (i + 1) s') := by
+  induction i generalizing s s' with
+  | zero => exact hM s s' a h1 h2
+  | succ i ih =>
+    have h := hM s s' a h1 h2
+    exact ih (env.step s a) (env.step s' a) h.1 h.2.1
+
+/-- two wrapped states from which the future looks the same -/
+structure Sim (s s' : ArSt P O X R) : Prop where
+  ps : s.ps = s'.ps
+  obs : s.obs = s'.obs
+  firstPs : s.firstPs = s'.firstPs
+  firstObs : s.firstObs = s'.firstObs
+  steps : (arPre s).steps = (arPre s').steps
+
+theorem sim_step (env : Env K P O X R A) (hM : Markov env) (L : Nat) {r : Nat} (hr : 1 ≤ r)
+    (s s' : ArSt P O X R) (h : Sim s s') (a : A) :
+    (arStep env L r s a).out = (arStep env L r s' a).out ∧
+    Sim (arStep env L r s a) (arStep env L r s' a) := by
+  have hcore : ∀ i, CoreEq (iter env a (i + 1) s.inner) (iter env a (i + 1) s'.inner) :=
+    fun i => iter_core env hM a i _ _ h.ps h.obs
+  obtain ⟨q, rfl⟩ : ∃ q, r = q + 1 := ⟨r - 1, by omega⟩
+  have hlast := hcore q
+  have hsteps : (arStep env L (q + 1) s a).steps = (arStep env L (q + 1) s' a).steps := by
+    have := h.steps
+    simp only [arStep, epStep, ArSt.steps] at this ⊢
+    rw [this]
+  have hrew : (arStep env L (q + 1) s a).reward = (arStep env L (q + 1) s' a).reward := by
+    rw [reward_eq, reward_eq]
+    congr 1
+    apply List.map_congr_left
+    intro i _
+    exact (hcore i).2.2.1
+  have hdone : (arStep env L (q + 1) s a).done = (arStep env L (q + 1) s' a).done := by
+    rw [done_eq, done_eq, hsteps, hlast.2.2.2.1]
+  have htr : (arStep env L (q + 1) s a).truncation = (arStep env L (q + 1) s' a).truncation := by
+    rw [truncation_eq, truncation_eq, hsteps, hlast.2.2.2.1]
+  have hmet : (arStep env L (q + 1) s a).metrics = (arStep env L (q + 1) s' a).metrics := by
+    rw [metrics_eq, metrics_eq, hlast.2.2.2.2]
+  have hps : (arStep env L (q + 1) s a).ps = (arStep env L (q + 1) s' a).ps := by
+    rw [ps_eq, ps_eq, hdone, hlast.1, h.firstPs]
+  have hobs : (arStep env L (q + 1) s a).obs = (arStep env L (q + 1) s' a).obs := by
+    rw [obs_eq, obs_eq, hdone, hlast.2.1, h.firstObs]
+  refine ⟨?_, ⟨hps, hobs, h.firstPs, h.firstObs, ?_⟩⟩
+  · simp only [ArSt.out, hps, hobs, hrew, hdone, hmet, hsteps, htr]
+  · have h1 : (arStep env L (q + 1) s a).ep.st.done = (arStep env L (q + 1) s' a).ep.st.done := hdone
+    have h2 : (arStep env L (q + 1) s a).ep.steps = (arStep env L (q + 1) s' a).ep.steps := hsteps
+    simp only [arPre, h1, h2]
+
+theorem sim_foldl (env : Env K P O X R A) (hM : Markov env) (L : Nat) {r : Nat} (hr : 1 ≤ r)
+    (s s' : ArSt P O X R) (h : Sim s s') (b : A) (bs : List A) :
+    ((b :: bs).foldl (arStep env L r) s).out = ((b :: bs).foldl (arStep env L r) s').out := by
+  induction bs generalizing s s' b with
+  | nil => exact (sim_step env hM L hr s s' h b).1
+  | cons c cs ih =>
+    rw [List.foldl_cons, List.foldl_cons (l := c :: cs)]
+    exact ih _ _ (sim_step env hM L hr s s' h b).2 c
+
+/-! ### evaluation accumulators -/
+
+theorem done_bool (env : Env K P O X R A)
+    (hb : ∀ s a, (env.step s a).done = 0 ∨ (env.step s a).done = 1) (L r : Nat)
+    (s : ArSt P O X R) (a : A) :
+    (arStep env L r s a).done = 0 ∨ (arStep env L r s a).done = 1 := by
+  rw [done_eq]
+  split
+  · exact Or.inr rfl
+  · cases r with
+    | zero => left; rfl
+    | succ q =>
+      have : ∀ (n : Nat) (t : St P O X R),
+          (iter env a (n + 1) t).done = 0 ∨ (iter env a (n + 1) t).done = 1 := by
+        intro n
+        induction n with
+        | zero => intro t; exact hb _ _
+        | succ n ih => intro t; exact ih _
+      exact this _ _
+
+theorem evFold_ar (env : Env K P O X R A) (L r : Nat) (s : EvSt P O X R) (as : List A) :
+    (as.foldl (evStep env L r) s).ar = as.foldl (arStep env L r) s.ar ∧
+    (as ≠ [] → (as.foldl (evStep env L r) s).mReward = (as.foldl (arStep env L r) s.ar).reward) := by
+  induction as generalizing s with
+  | nil => exact ⟨rfl, fun h => absurd rfl h⟩
+  | cons a as ih =>
+    simp only [List.foldl_cons]
+    refine ⟨(ih _).1, fun _ => ?_⟩
+    rcases as with _ | ⟨b, bs⟩
+    · rfl
+    · exact (ih (evStep env L r s a)).2 (by simp)
+
+theorem metrics_len (env : Env K P O X R A)
+    (hm : ∀ s a, (env.step s a).metrics.length = s.metrics.length) (L r : Nat)
+    (s : ArSt P O X R) (a : A) : (arStep env L r s a).metrics.length = s.metrics.length := by
+  rw [metrics_eq]
+  have : ∀ (n : Nat) (t : St P O X R), (iter env a n t).metrics.length = t.metrics.length := by
+    intro n
+    induction n with
+    | zero => intro t; rfl
+    | succ n ih => intro t; simp only [iter, ih, hm]
+  rw [this]
+  rfl
+
+theorem zipWith_frozen (em m : List R) (h : em.length ≤ m.length) :
+    List.zipWith (fun x y => x + y * (0 : R)) em m = em := by
+  induction em generalizing m with
+  | nil => simp
+  | cons x xs ih =>
+    cases m with
+    | nil => simp at h
+    | cons y ys =>
+      simp only [List.zipWith_cons_cons, mul_zero, add_zero, List.cons.injEq, true_and]
+      have := ih ys (by simpa using h)
+      simpa only [mul_zero, add_zero] using this
+
+/-- once `active_episodes` is 0 nothing is accumulated any more -/
+theorem evFold_frozen (env : Env K P O X R A) (L r : Nat) (s : EvSt P O X R)
+    (h0 : s.active = 0) (as : List A) :
+    (as.foldl (evStep env L r) s).active = 0 ∧
+    (as.foldl (evStep env L r) s).emReward = s.emReward ∧
+    (as.foldl (evStep env L r) s).episodeSteps = s.episodeSteps := by
+  induction as generalizing s with
+  | nil => exact ⟨h0, rfl, rfl⟩
+  | cons a as ih =>
+    simp only [List.foldl_cons]
+    have h := ih (evStep env L r s a) (by simp only [evStep, h0, zero_mul])
+    refine ⟨h.1, ?_, ?_⟩
+    · rw [h.2.1]; simp only [evStep, h0, mul_zero, add_zero]
+    · rw [h.2.2]; simp only [evStep, h0, whereNZ, if_true]
+
+theorem evFold_frozen_metrics (env : Env K P O X R A)
+    (hm : ∀ s a, (env.step s a).metrics.length = s.metrics.length) (L r : Nat)
+    (s : EvSt P O X R) (h0 : s.active = 0) (hl : s.emMetrics.length = s.ar.metrics.length)
+    (as : List A) :
+    (as.foldl (evStep env L r) s).emMetrics = s.emMetrics := by
+  induction as generalizing s with
+  | nil => rfl
+  | cons a as ih =>
+    simp only [List.foldl_cons]
+    have hstep : (evStep env L r s a).emMetrics = s.emMetrics := by
+      simp only [evStep, h0]
+      exact zipWith_frozen _ _ (by rw [metrics_len env hm, hl])
+    rw [ih (evStep env L r s a) (by simp only [evStep, h0, zero_mul])
+      (by rw [hstep, hl]; exact (metrics_len env hm L r s.ar a).symm), hstep]
+
+theorem getLast_cons_getD {α β : Type} (f : α → β) (x : α) (l : List α) (d : β) :
+    (((x :: l).getLast?).map f).getD d = ((l.getLast?).map f).getD (f x) := by
+  cases l with
+  | nil => simp
+  | cons y ys => rw [List.getLast?_cons_cons]; simp [List.getLast?_cons]
+
+/-- while `active_episodes` is 1 the accumulators follow the first episode of the trace -/
+theorem evFold_active (env : Env K P O X R A)
+    (hb : ∀ s a, (env.step s a).done = 0 ∨ (env.step s a).done = 1) (L r : Nat)
+    (s : EvSt P O X R) (h1 : s.active = 1) (as : List A) :
+    (as.foldl (evStep env L r) s).emReward
+      = s.emReward + ((firstEp (traceFrom env L r s.ar as)).map (·.reward)).sum ∧
+    (as.foldl (evStep env L r) s).active
+      = (if (traceFrom env L r s.ar as).any (fun t => decide (t.done ≠ 0)) then 0 else 1) ∧
+    (as.foldl (evStep env L r) s).episodeSteps
+      = (((firstEp (traceFrom env L r s.ar as)).getLast?).map (·.steps)).getD s.episodeSteps := by
+  induction as generalizing s with
+  | nil => simp [traceFrom, firstEp, takeThrough, h1]
+  | cons a as ih =>
+    simp only [List.foldl_cons, traceFrom]
+    have hsr : (evStep env L r s a).emReward = s.emReward + (arStep env L r s.ar a).reward := by
+      simp only [evStep, h1, mul_one]
+    have hss : (evStep env L r s a).episodeSteps = (arStep env L r s.ar a).steps := by
+      simp only [evStep, h1, whereNZ, one_ne_zero, if_false]
+    have hsa : (evStep env L r s a).ar = arStep env L r s.ar a := rfl
+    rcases done_bool env hb L r s.ar a with hd | hd
+    · have hact : (evStep env L r s a).active = 1 := by
+        simp only [evStep, h1, hd, sub_zero, mul_one]
+      have h := ih (evStep env L r s a) hact
+      rw [hsa] at h
+      have hfe : firstEp (arStep env L r s.ar a :: traceFrom env L r (arStep env L r s.ar a) as)
+          = arStep env L r s.ar a :: firstEp (traceFrom env L r (arStep env L r s.ar a) as) := by
+        simp only [firstEp, takeThrough, hd, ne_eq, not_true_eq_false, decide_false,
+          Bool.false_eq_true, if_false]
+      refine ⟨?_, ?_, ?_⟩
+      · rw [h.1, hfe, hsr, List.map_cons, List.sum_cons, add_assoc]
+      · rw [h.2.1]
+        simp only [List.any_cons, hd, ne_eq, not_true_eq_false, decide_false, Bool.false_or]
+      · rw [h.2.2, hfe, getLast_cons_getD, hss]
+    · have hact : (evStep env L r s a).active = 0 := by
+        simp only [evStep, hd, sub_self, mul_zero]
+      have h := evFold_frozen env L r (evStep env L r s a) hact as
+      have hfe : firstEp (arStep env L r s.ar a :: traceFrom env L r (arStep env L r s.ar a) as)
+          = [arStep env L r s.ar a] := by
+        simp only [firstEp, takeThrough, hd, ne_eq, one_ne_zero, not_false_eq_true, decide_true,
+          if_true]
+      refine ⟨?_, ?_, ?_⟩
+      · rw [h.2.1, hfe, hsr]; simp
+      · rw [h.1]
+        simp only [List.any_cons, hd, ne_eq, one_ne_zero, not_false_eq_true, decide_true,
+          Bool.true_or, if_true]
+      · rw [h.2.2, hfe, hss]; simp
+
+theorem evFold_active_metrics (env : Env K P O X R A)
+    (hb : ∀ s a, (env.step s a).done = 0 ∨ (env.step s a).done = 1)
+    (hm : ∀ s a, (env.step s a).metrics.length = s.metrics.length) (L r : Nat)
+    (s : EvSt P O X R) (h1 : s.active = 1) (hl : s.emMetrics.length = s.ar.metrics.length)
+    (as : List A) :
+    (as.foldl (evStep env L r) s).emMetrics
+      = (firstEp (traceFrom env L r s.ar as)).foldl
+          (fun acc t => List.zipWith (· + ·) acc t.metrics) s.emMetrics := by
+  induction as generalizing s with
+  | nil => simp [traceFrom, firstEp, takeThrough]
+  | cons a as ih =>
+    simp only [List.foldl_cons, traceFrom]
+    have hsm : (evStep env L r s a).emMetrics
+        = List.zipWith (· + ·) s.emMetrics (arStep env L r s.ar a).metrics := by
+      simp only [evStep, h1, mul_one]
+    have hsa : (evStep env L r s a).ar = arStep env L r s.ar a := rfl
+    have hl' : (evStep env L r s a).emMetrics.length = (evStep env L r s a).ar.metrics.length := by
+      rw [hsm, hsa, List.length_zipWith, hl, metrics_len env hm]; simp
+    rcases done_bool env hb L r s.ar a with hd | hd
+    · have hact : (evStep env L r s a).active = 1 := by
+        simp only [evStep, h1, hd, sub_zero, mul_one]
+      have h := ih (evStep env L r s a) hact hl'
+      rw [hsa] at h
+      have hfe : firstEp (arStep env L r s.ar a :: traceFrom env L r (arStep env L r s.ar a) as)
+          = arStep env L r s.ar a :: firstEp (traceFrom env L r (arStep env L r s.ar a) as) := by
+        simp only [firstEp, takeThrough, hd, ne_eq, not_true_eq_false, decide_false,
+          Bool.false_eq_true, if_false]
+      rw [h, hfe, List.foldl_cons, hsm]
+    · have hact : (evStep env L r s a).active = 0 := by
+        simp only [evStep, hd, sub_self, mul_zero]
+      have h := evFold_frozen_metrics env hm L r (evStep env L r s a) hact hl' as
+      have hfe : firstEp (arStep env L r s.ar a :: traceFrom env L r (arStep env L r s.ar a) as)
+          = [arStep env L r s.ar a] := by
+        simp only [firstEp, takeThrough, hd, ne_eq, one_ne_zero, not_false_eq_true, decide_true,
+          if_true]
+      rw [h, hfe, hsm]; rfl
+
 end ring
 
+section ring
+variable [CommRing R] [LinearOrder R] [IsStrictOrderedRing R]
+
+/-! ### episode log -/
+
+theorem chunkOf_lastDone (env : Env K P O X R A) (a : A) (q : Nat) (s : St P O X R) :
+    (chunkOf env a (q + 1) s).lastDone = (iter env a (q + 1) s).done := by
+  simp only [chunkOf, Chunk.lastDone, List.range_succ, List.map_append, List.map_cons,
+    List.map_nil, List.getLast?_append, List.getLast?_singleton, Option.some_or, Option.map_some,
+    Option.getD_some]
+
+theorem chunkOf_rewards (env : Env K P O X R A) (a : A) (r : Nat) (s : St P O X R) :
+    (chunkOf env a r s).map (·.1) = (List.range r).map fun i => (iter env a (i + 1) s).reward := by
+  simp only [chunkOf, List.map_map, Function.comp_def]
+
+
+theorem trace_matches_spec (env : Env K P O X R A) {L r : Nat} (hL : 1 ≤ L) (hr : 1 ≤ r)
+    (s : ArSt P O X R) (c : Nat) (hinv : Inv L r (s, c)) (as : List A) :
+    (traceFrom env L r s as).map ArSt.report
+      = (specSteps L r (if s.done = 0 then c else 0) (chunksFrom env L r s as)).map StepOut.toR := by
+  induction as generalizing s c with
+  | nil => rfl
+  | cons a as ih =>
+    obtain ⟨q, rfl⟩ : ∃ q, r = q + 1 := ⟨r - 1, by omega⟩
+    have hinv' := inv_step env hL (s, c) hinv a
+    simp only [stepC] at hinv'
+    generalize hk : (if s.done = 0 then c else 0) = k at hinv'
+    have hsteps : (arStep env L (q + 1) s a).steps = (((k + 1) * (q + 1) : Nat) : R) := hinv'.steps
+    have hcut : ((L : R) ≤ (arStep env L (q + 1) s a).steps) ↔ L ≤ (k + 1) * (q + 1) := by
+      rw [hsteps, Nat.cast_le]
+    have hd : (arStep env L (q + 1) s a).done
+        = if L ≤ (k + 1) * (q + 1) then 1 else (chunkOf env a (q + 1) s.inner).lastDone := by
+      rw [done_eq, chunkOf_lastDone]; simp only [hcut]
+    have ht : (arStep env L (q + 1) s a).truncation
+        = if L ≤ (k + 1) * (q + 1) then 1 - (chunkOf env a (q + 1) s.inner).lastDone else 0 := by
+      rw [truncation_eq, chunkOf_lastDone]; simp only [hcut]
+    have hrw : (arStep env L (q + 1) s a).reward
+        = sumList ((chunkOf env a (q + 1) s.inner).map (·.1)) := by
+      rw [reward_eq, chunkOf_rewards, sumList_eq_sum]
+    simp only [traceFrom, chunksFrom, specSteps, List.map_cons, decide_eq_true_eq]
+    rw [ih (arStep env L (q + 1) s a) (k + 1) hinv', hd]
+    congr 1
+    simp only [ArSt.report, StepOut.toR, hrw, hsteps, hd, ht]
+
+theorem splitByDone_spec (L r : Nat) (k : Nat) (cur : List R) (cs : List (Chunk R)) :
+    splitByDone cur ((specSteps L r k cs).map (·.done)) cs = episodeLogAux L r k cur cs := by
+  induction cs generalizing k cur with
+  | nil => rfl
+  | cons c cs ih =>
+    simp only [specSteps, List.map_cons, splitByDone, episodeLogAux, decide_eq_true_eq]
+    by_cases hcut : L ≤ (k + 1) * r
+    · simp only [hcut, if_true, one_ne_zero, if_false, true_or, ih]
+    · by_cases hl : c.lastDone = 0
+      · simp only [hcut, if_false, hl, if_true, ne_eq, not_true_eq_false, or_self, ih]
+      · simp only [hcut, if_false, hl, ne_eq, not_false_eq_true, or_true, if_true, ih]
+
+end ring
+
+/-! ### batched layout -/
+
+theorem zw3_map {ι α β γ δ : Type} (f : α → β → γ → δ) (g₁ : ι → α) (g₂ : ι → β) (g₃ : ι → γ)
+    (l : List ι) :
+    zw3 f (l.map g₁) (l.map g₂) (l.map g₃) = l.map fun x => f (g₁ x) (g₂ x) (g₃ x) := by
+  induction l with
+  | nil => rfl
+  | cons x xs ih => simp only [List.map_cons, zw3, ih]
+
+theorem where3_map {ι α : Type} (c : ι → Bool) (g₂ g₃ : ι → α) (l : List ι) :
+    where3 (l.map c) (l.map g₂) (l.map g₃) = l.map fun x => if c x then g₂ x else g₃ x :=
+  zw3_map _ c g₂ g₃ l
+
+theorem zipWith_map_map {ι α β γ : Type} (f : α → β → γ) (g₁ : ι → α) (g₂ : ι → β) (l : List ι) :
+    List.zipWith f (l.map g₁) (l.map g₂) = l.map fun x => f (g₁ x) (g₂ x) := by
+  induction l with
+  | nil => rfl
+  | cons x xs ih => simp only [List.map_cons, List.zipWith_cons_cons, ih]
+
+theorem where3_replicate {α : Type} (c : Bool) (x y : List α) (h : x.length = y.length) :
+    where3 (List.replicate x.length c) x y = if c then x else y := by
+  induction x generalizing y with
+  | nil =>
+    cases y with
+    | nil => cases c <;> rfl
+    | cons _ _ => simp at h
+  | cons a as ih =>
+    cases y with
+    | nil => simp at h
+    | cons b bs =>
+      have := ih bs (by simpa using h)
+      simp only [where3] at this
+      simp only [where3, List.length_cons, List.replicate_succ, zw3, this]
+      cases c <;> rfl
+
+theorem whereDoneRows_map {ι α : Type} (c : ι → Bool) (g₂ g₃ : ι → List α) (l : List ι)
+    (h : ∀ x ∈ l, (g₂ x).length = (g₃ x).length) :
+    whereDoneRows (l.map c) (l.map g₂) (l.map g₃) = l.map fun x => if c x then g₂ x else g₃ x := by
+  simp only [whereDoneRows, zipWith_map_map, zw3_map]
+  apply List.map_congr_left
+  intro x hx
+  exact where3_replicate _ _ _ (h x hx)
+
+theorem members_stack (l : List (St P (List R) X R)) : (BSt.stack l).members = l := by
+  induction l with
+  | nil => rfl
+  | cons x xs ih =>
+    simp only [BSt.members, BSt.stack, List.map_cons, membersAux] at ih ⊢
+    rw [ih]
+
+theorem vmapStep_stack {ι : Type} (env : BEnv K P X R A) (l : List ι)
+    (g : ι → St P (List R) X R) (h : ι → A) :
+    vmapStep env (BSt.stack (l.map g)) (l.map h) = BSt.stack (l.map fun x => env.step (g x) (h x)) := by
+  simp only [vmapStep, members_stack, zipWith_map_map]
+
+section ring
+variable [CommRing R] [LinearOrder R] [IsStrictOrderedRing R]
+
+theorem bScan_map {ι : Type} (env : BEnv K P X R A) (n : Nat) (l : List ι) (acc : ι → R)
+    (g : ι → St P (List R) X R) (h : ι → A) :
+    (bScanRepeat env (l.map h) n (BSt.stack (l.map g))).1
+      = BSt.stack (l.map fun x => (scanRepeat env (h x) n (g x)).1) ∧
+    (bScanRepeat env (l.map h) n (BSt.stack (l.map g))).2.foldl (List.zipWith (· + ·)) (l.map acc)
+      = l.map fun x => (scanRepeat env (h x) n (g x)).2.foldl (· + ·) (acc x) := by
+  induction n generalizing acc g with
+  | zero => exact ⟨rfl, rfl⟩
+  | succ n ih =>
+    simp only [bScanRepeat, scanRepeat, vmapStep_stack, List.foldl_cons]
+    refine ⟨(ih acc _).1, ?_⟩
+    have : (BSt.stack (l.map fun x => env.step (g x) (h x))).reward
+        = l.map fun x => (env.step (g x) (h x)).reward := by
+      simp only [BSt.stack, List.map_map, Function.comp_def]
+    rw [this, zipWith_map_map]
+    exact (ih _ _).2
+
+theorem bEpStep_map {ι : Type} (env : BEnv K P X R A) (L r : Nat) (l : List ι)
+    (g : ι → EpSt P (List R) X R) (h : ι → A) :
+    bEpStep env L r (BEpSt.stack (l.map g)) (l.map h)
+      = BEpSt.stack (l.map fun x => epStep env L r (g x) (h x)) := by
+  have hs := bScan_map env r l (fun _ => (0 : R)) (fun x => (g x).st) h
+  simp only [bEpStep, BEpSt.stack, List.map_map, Function.comp_def, hs.1, sumAxis0]
+  have hB : (BSt.stack (l.map fun x => (g x).st)).reward.length = l.length := by
+    simp only [BSt.stack, List.length_map]
+  rw [hB, ← List.map_const', hs.2]
+  simp only [BSt.stack, List.map_map, Function.comp_def, where3_map, epStep, sumList]
+  simp only [decide_eq_true_eq]
+
+theorem bArStep_map {ι : Type} (env : BEnv K P X R A) (L r : Nat) (l : List ι)
+    (g : ι → ArSt P (List R) X R) (h : ι → A)
+    (hlen : ∀ x ∈ l, (g x).firstObs.length = (epStep env L r (arPre (g x)) (h x)).st.obs.length) :
+    bArStep env L r (BArSt.stack (l.map g)) (l.map h)
+      = BArSt.stack (l.map fun x => arStep env L r (g x) (h x)) := by
+  have hpre : ({ (BArSt.stack (l.map g)).ep with
+        steps := where3 ((BArSt.stack (l.map g)).ep.st.done.map nz)
+          ((BArSt.stack (l.map g)).ep.steps.map fun _ => (0 : R)) (BArSt.stack (l.map g)).ep.steps,
+        st := { (BArSt.stack (l.map g)).ep.st with
+          done := (BArSt.stack (l.map g)).ep.st.done.map fun _ => 0 } } : BEpSt P X R)
+      = BEpSt.stack (l.map fun x => arPre (g x)) := by
+    simp only [BArSt.stack, BEpSt.stack, BSt.stack, List.map_map, Function.comp_def, where3_map,
+      arPre, whereNZ, nz]
+    congr 1
+    apply List.map_congr_left
+    intro x _
+    by_cases hd : (g x).ep.st.done = 0 <;> simp [hd]
+  simp only [bArStep]
+  rw [hpre, bEpStep_map]
+  simp only [BArSt.stack, BEpSt.stack, BSt.stack, List.map_map, Function.comp_def, where3_map,
+    arStep]
+  rw [whereDoneRows_map _ _ _ l hlen]
+  simp only [whereNZ, nz, ne_eq, decide_not, Bool.not_eq_eq_eq_not, Bool.not_true,
+    decide_eq_false_iff_not, ite_not]
+
+theorem bEvStep_map {ι : Type} (env : BEnv K P X R A) (L r : Nat) (l : List ι)
+    (g : ι → EvSt P (List R) X R) (h : ι → A)
+    (hlen : ∀ x ∈ l,
+      (g x).ar.firstObs.length = (epStep env L r (arPre (g x).ar) (h x)).st.obs.length) :
+    bEvStep env L r (BEvSt.stack (l.map g)) (l.map h)
+      = BEvSt.stack (l.map fun x => evStep env L r (g x) (h x)) := by
+  have har := bArStep_map env L r l (fun x => (g x).ar) h hlen
+  simp only [bEvStep, BEvSt.stack, List.map_map, Function.comp_def, har]
+  simp only [BArSt.stack, BEpSt.stack, BSt.stack, List.map_map, Function.comp_def, zw3_map,
+    where3_map, zipWith_map_map, evStep, whereNZ, nz, ne_eq, decide_not, Bool.not_eq_eq_eq_not,
+    Bool.not_true, decide_eq_false_iff_not, ite_not]
+
+theorem bArReset_eq (env : BEnv K P X R A) (ks : List K) :
+    bArReset env ks = BArSt.stack (ks.map (arReset env)) := by
+  simp only [bArReset, bEpReset, vmapReset, BArSt.stack, BEpSt.stack, BSt.stack, List.map_map,
+    Function.comp_def, arReset, epReset, List.map_const']
+
+theorem bEvReset_eq (env : BEnv K P X R A) (ks : List K) :
+    bEvReset env ks = BEvSt.stack (ks.map (evReset env)) := by
+  simp only [bEvReset, bArReset_eq, BEvSt.stack, BArSt.stack, BEpSt.stack, BSt.stack,
+    List.map_map, Function.comp_def, evReset, arReset, epReset, ArSt.reward, ArSt.metrics]
+
+/-- member states whose observation rows have the environment's observation size -/
+def WFm (n : Nat) (s : ArSt P (List R) X R) : Prop := s.firstObs.length = n ∧ s.obs.length = n
+
+theorem iter_obs_len (env : BEnv K P X R A) (n : Nat)
+    (hstep : ∀ s a, (env.step s a).obs.length = n) (a : A) (i : Nat) (s : St P (List R) X R)
+    (hs : s.obs.length = n) : (iter env a i s).obs.length = n := by
+  induction i generalizing s with
+  | zero => exact hs
+  | succ i ih => exact ih _ (hstep s a)
+
+theorem wfm_inner (env : BEnv K P X R A) (n : Nat)
+    (hstep : ∀ s a, (env.step s a).obs.length = n) (L r : Nat) (s : ArSt P (List R) X R)
+    (hs : WFm n s) (a : A) : (epStep env L r (arPre s) a).st.obs.length = n := by
+  simp only [epStep, scanRepeat_fst]
+  exact iter_obs_len env n hstep a r _ hs.2
+
+theorem wfm_step (env : BEnv K P X R A) (n : Nat)
+    (hstep : ∀ s a, (env.step s a).obs.length = n) (L r : Nat) (s : ArSt P (List R) X R)
+    (hs : WFm n s) (a : A) : WFm n (arStep env L r s a) := by
+  refine ⟨hs.1, ?_⟩
+  have := wfm_inner env n hstep L r s hs a
+  simp only [arStep, ArSt.obs, whereNZ]
+  split
+  · exact this
+  · exact hs.1
+
+theorem zipWith_eq_map_zip' {α β γ : Type} (f : α → β → γ) (l : List α) (m : List β) :
+    List.zipWith f l m = (l.zip m).map fun p => f p.1 p.2 := by
+  induction l generalizing m with
+  | nil => rfl
+  | cons x xs ih => cases m with
+    | nil => rfl
+    | cons y ys => simp only [List.zipWith_cons_cons, List.zip_cons_cons, List.map_cons, ih]
+
+theorem forall_mem_zipWith {α β γ : Type} (f : α → β → γ) (Q : γ → Prop) (l : List α)
+    (m : List β) (h : ∀ x ∈ l, ∀ y, Q (f x y)) : ∀ z ∈ List.zipWith f l m, Q z := by
+  induction l generalizing m with
+  | nil => intro z hz; simp at hz
+  | cons x xs ih => cases m with
+    | nil => intro z hz; simp at hz
+    | cons y ys =>
+      intro z hz
+      simp only [List.zipWith_cons_cons, List.mem_cons] at hz
+      rcases hz with rfl | hz
+      · exact h x List.mem_cons_self y
+      · exact ih ys (fun x hx => h x (List.mem_cons_of_mem _ hx)) z hz
+
+theorem bArStep_zip (env : BEnv K P X R A) (n : Nat)
+    (hstep : ∀ s a, (env.step s a).obs.length = n) (L r : Nat) (l : List (ArSt P (List R) X R))
+    (hl : ∀ s ∈ l, WFm n s) (as : List A) (hlen : as.length = l.length) :
+    bArStep env L r (BArSt.stack l) as = BArSt.stack (List.zipWith (arStep env L r) l as) := by
+  have h1 : l = (l.zip as).map (·.1) := (List.map_fst_zip (by omega)).symm
+  have h2 : as = (l.zip as).map (·.2) := (List.map_snd_zip (by omega)).symm
+  rw [zipWith_eq_map_zip']
+  have key := bArStep_map env L r (l.zip as) (·.1) (·.2) ?_
+  · rwa [← h1, ← h2] at key
+  intro p hp
+  have hw := hl p.1 (List.of_mem_zip hp).1
+  rw [wfm_inner env n hstep L r p.1 hw]; exact hw.1
+
+theorem bRun_foldl (env : BEnv K P X R A) (n : Nat)
+    (hstep : ∀ s a, (env.step s a).obs.length = n) (L r : Nat) (hist : List (List A))
+    (l : List (ArSt P (List R) X R)) (hl : ∀ s ∈ l, WFm n s)
+    (hshape : ∀ as ∈ hist, as.length = l.length) :
+    hist.foldl (bArStep env L r) (BArSt.stack l)
+      = BArSt.stack (hist.foldl (fun l as => List.zipWith (arStep env L r) l as) l) := by
+  induction hist generalizing l with
+  | nil => rfl
+  | cons as hist ih =>
+    have hlen := hshape as List.mem_cons_self
+    simp only [List.foldl_cons]
+    rw [bArStep_zip env n hstep L r l hl as hlen]
+    apply ih
+    · exact forall_mem_zipWith _ _ _ _ (fun s hs a => wfm_step env n hstep L r s (hl s hs) a)
+    · intro bs hbs
+      rw [List.length_zipWith, hlen, Nat.min_self]
+      exact hshape bs (List.mem_cons_of_mem _ hbs)
+
+theorem bEvStep_zip (env : BEnv K P X R A) (n : Nat)
+    (hstep : ∀ s a, (env.step s a).obs.length = n) (L r : Nat) (l : List (EvSt P (List R) X R))
+    (hl : ∀ s ∈ l, WFm n s.ar) (as : List A) (hlen : as.length = l.length) :
+    bEvStep env L r (BEvSt.stack l) as = BEvSt.stack (List.zipWith (evStep env L r) l as) := by
+  have h1 : l = (l.zip as).map (·.1) := (List.map_fst_zip (by omega)).symm
+  have h2 : as = (l.zip as).map (·.2) := (List.map_snd_zip (by omega)).symm
+  rw [zipWith_eq_map_zip']
+  have key := bEvStep_map env L r (l.zip as) (·.1) (·.2) ?_
+  · rwa [← h1, ← h2] at key
+  intro p hp
+  have hw := hl p.1 (List.of_mem_zip hp).1
+  rw [wfm_inner env n hstep L r p.1.ar hw]; exact hw.1
+
+theorem bEvRun_foldl (env : BEnv K P X R A) (n : Nat)
+    (hstep : ∀ s a, (env.step s a).obs.length = n) (L r : Nat) (hist : List (List A))
+    (l : List (EvSt P (List R) X R)) (hl : ∀ s ∈ l, WFm n s.ar)
+    (hshape : ∀ as ∈ hist, as.length = l.length) :
+    hist.foldl (bEvStep env L r) (BEvSt.stack l)
+      = BEvSt.stack (hist.foldl (fun l as => List.zipWith (evStep env L r) l as) l) := by
+  induction hist generalizing l with
+  | nil => rfl
+  | cons as hist ih =>
+    have hlen := hshape as List.mem_cons_self
+    simp only [List.foldl_cons]
+    rw [bEvStep_zip env n hstep L r l hl as hlen]
+    apply ih
+    · exact forall_mem_zipWith (evStep env L r) (fun (s : EvSt P (List R) X R) => WFm n s.ar) _ _
+        (fun s hs a => wfm_step env n hstep L r s.ar (hl s hs) a)
+    · intro bs hbs
+      rw [List.length_zipWith, hlen, Nat.min_self]
+      exact hshape bs (List.mem_cons_of_mem _ hbs)
+
+/-- member `i` of member-wise runs is the run on column `i` of the history -/
+theorem foldl_zipWith_getElem? {σ α : Type} (f : σ → α → σ) (hist : List (List α)) (l : List σ)
+    (i : Nat) (s : σ) (col : List α) (hs : l[i]? = some s)
+    (hcol : hist.map (·[i]?) = col.map some) :
+    (hist.foldl (fun l as => List.zipWith f l as) l)[i]? = some (col.foldl f s) := by
+  induction hist generalizing l s col with
+  | nil =>
+    cases col with
+    | nil => exact hs
+    | cons _ _ => simp at hcol
+  | cons as hist ih =>
+    cases col with
+    | nil => simp at hcol
+    | cons c cs =>
+      simp only [List.map_cons, List.cons.injEq] at hcol
+      simp only [List.foldl_cons]
+      apply ih _ _ cs _ hcol.2
+      rw [List.getElem?_zipWith, hs, hcol.1]
+
+end ring
 end Brax.C15
